@@ -15,9 +15,14 @@ Flags:
   unknownAct   an action chain without a summary was executed
   agreementRec the persisted record holds the peer's swap_in_agreement (a second one is refused with
                AlreadyExists before anything else happens)
+  openFailed   the swap is stored in its broadcast-opening state with a failed attempt on record
+               (SwapData.LastErrString != ""): since fix (repo) "do not repeat a failed opening broadcast"
+               the action, run again by a recovery, fails at once instead of funding the swap a second time
 
 `Env` restricts the environment:
   crashInBroadcast    the process can die between the wallet's broadcast and the persist that follows
+  errorAfterBroadcast the wallet adapter can broadcast and THEN report an error (lwk fetches the raw transaction
+                      from the Electrum server after the broadcast; a lost reply)
   scriptFails         wallet.GetOutputScript can fail (it is a pure computation on validated keys)
   policyFails         AddToSuspiciousPeerList can fail (no policy file configured)
 -/
@@ -45,6 +50,7 @@ def resend (f : F) := f.bit 7
 def suspicious (f : F) := f.bit 8
 def unknownAct (f : F) := f.bit 9
 def agreementRec (f : F) := f.bit 10
+def openFailed (f : F) := f.bit 11
 def setOpeningRec (f : F) (b : Bool) := f.setBit 2 b
 def setInvoicePaid (f : F) (b : Bool) := f.setBit 3 b
 def setSpentBack (f : F) (b : Bool) := f.setBit 4 b
@@ -54,6 +60,7 @@ def setResend (f : F) (b : Bool) := f.setBit 7 b
 def setSuspicious (f : F) (b : Bool) := f.setBit 8 b
 def setUnknownAct (f : F) (b : Bool) := f.setBit 9 b
 def setAgreementRec (f : F) (b : Bool) := f.setBit 10 b
+def setOpenFailed (f : F) (b : Bool) := f.setBit 11 b
 def init : F := ⟨0⟩
 end F
 
@@ -61,6 +68,10 @@ structure Env where
   /-- track the persisted swap_in_agreement (only the swap-in initiator ever accepts that event) -/
   trackAgreement : Bool
   crashInBroadcast : Bool
+  errorAfterBroadcast : Bool
+  /-- the code BEFORE the fix: a recovery repeats an opening attempt that is on record as failed
+      (only the witness of the repaired finding sets this) -/
+  retryFailedOpening : Bool := false
   scriptFails : Bool
   policyFails : Bool
   deriving DecidableEq, Repr
@@ -70,11 +81,15 @@ def inc (n : Nat) : Nat := if n ≥ 2 then 2 else n + 1
 def okFail (f : F) : List (Ev × F) := [(E_ActionSucceeded, f), (E_ActionFailed, f)]
 
 /-- `CreateAndBroadcastOpeningTransaction` (after the height lookup was moved in front of the broadcast):
-    idempotent once the announcement is in the record; otherwise it fails before the broadcast or
-    broadcasts and records -/
-def openOutcomes (f : F) : List (Ev × F) :=
+    idempotent once the announcement is in the record; fails at once when an earlier attempt is on record
+    as failed; otherwise it fails before the broadcast, broadcasts and records, or — a wallet adapter that
+    reports an error after it broadcast — broadcasts and fails.  Every failure is recorded (`HandleError`). -/
+def openOutcomes (e : Env) (f : F) : List (Ev × F) :=
   if f.openingRec then [(E_ActionSucceeded, f)]
-  else [(E_ActionFailed, f), (E_ActionSucceeded, (f.setOpenings (inc f.openings)).setOpeningRec true)]
+  else if f.openFailed && !e.retryFailedOpening then [(E_ActionFailed, f)]
+  else [(E_ActionFailed, f.setOpenFailed true),
+        (E_ActionSucceeded, (f.setOpenings (inc f.openings)).setOpeningRec true)] ++
+       (if e.errorAfterBroadcast then [(E_ActionFailed, (f.setOpenings (inc f.openings)).setOpenFailed true)] else [])
 
 def stopResend (f : F) : F := f.setResend false
 
@@ -94,7 +109,7 @@ def doneOutcomes (e : Env) (acts : List Act) (f : F) : List (Ev × F) :=
   | [.NoOpDoneAction] => [(E_Done, stopResend f)]
   | _ => [(E_Done, f)]
 
-def outcomes (e : Env) (_s : St) (acts : List Act) (f : F) : List (Ev × F) :=
+def outcomes0 (e : Env) (acts : List Act) (f : F) : List (Ev × F) :=
   match acts with
   | [.NoOpAction] => [(E_NoOp, f)]
   | [.SetBlindingKeyActionWrapper, .CreateSwapRequestAction]
@@ -103,8 +118,10 @@ def outcomes (e : Env) (_s : St) (acts : List Act) (f : F) : List (Ev × F) :=
   | [.AwaitFeeInvoicePayment] => [(E_NoOp, f)]
   | [.CheckPremiumAmount, .CreateAndBroadcastOpeningTransaction] =>
       -- the premium check compares persisted values: once it passed (the node broadcast) it passes again
-      if f.openingRec && f.openings ≥ 1 then [(E_ActionSucceeded, f)] else (E_ActionFailed, f) :: openOutcomes f
-  | [.CreateAndBroadcastOpeningTransaction] => openOutcomes f
+      -- (a failed check is recorded by `HandleError` like a failed broadcast)
+      if f.openingRec && f.openings ≥ 1 then [(E_ActionSucceeded, f)]
+      else (E_ActionFailed, f.setOpenFailed true) :: openOutcomes e f
+  | [.CreateAndBroadcastOpeningTransaction] => openOutcomes e f
   | [.SendMessageWithRetryAction] =>
       -- AddSender refuses a second sender for the same swap
       if f.resend then [(E_ActionFailed, f)] else [(E_ActionSucceeded, f.setResend true), (E_ActionFailed, f)]
@@ -116,10 +133,18 @@ def outcomes (e : Env) (_s : St) (acts : List Act) (f : F) : List (Ev × F) :=
   | [.CancelAction] | [.NoOpDoneAction] | [.AddSuspiciousPeerAction, .NoOpDoneAction] => doneOutcomes e acts f
   | _ => Ev.all.map fun ev => (ev, f.setUnknownAct true)
 
+/-- the broadcast-opening states: `openFailed` speaks about records stored in these states only -/
+def openStates : List St := [.State_SwapInSender_BroadcastOpeningTx, .State_SwapOutReceiver_BroadcastOpeningTx]
+
+def outcomes (e : Env) (s : St) (acts : List Act) (f : F) : List (Ev × F) :=
+  (outcomes0 e acts f).map fun (ev, f') => (ev, if openStates.contains s then f' else f'.setOpenFailed false)
+
 def crashIn (e : Env) (_s : St) (acts : List Act) (f : F) : List F :=
   match acts with
   | [.CheckPremiumAmount, .CreateAndBroadcastOpeningTransaction] | [.CreateAndBroadcastOpeningTransaction] =>
-      if e.crashInBroadcast && !f.openingRec then [f, f.setOpenings (inc f.openings)] else [f]
+      -- (with a failed attempt on record the action returns before it reaches the wallet)
+      if e.crashInBroadcast && !f.openingRec && !(f.openFailed && !e.retryFailedOpening) then [f, f.setOpenings (inc f.openings)]
+      else [f]
   | [.StopSendMessageWithRetryWrapperAction, .ClaimSwapTransactionWithCsv]
   | [.StopSendMessageWithRetryWrapperAction, .ClaimSwapTransactionCoop] =>
       if f.claimTxRec then [f] else [f, f.setSpentBack true]
